@@ -14,7 +14,8 @@ def main(tier):
                  'system level': 'per cartridge kind: one write to every address class / register, one machine cycle of each component, one frame-loop iteration without the CPU, one button event; observables: every readable address (symbolic), the component clocks, the serial transcript, cartridge RAM (symbolic index), the frame buffer (symbolic index)',
                  'cpu level': 'one instruction (opcode = configuration; quick: one per class, thorough: all 501) on two machines: registers, scheduler state, memory (symbolic probe), interrupt registers',
                  'frame level': 'two emulators from the same image run one whole frame (17556 cycles) of a small program',
-                 'outside': 'separate OS processes (the claim is that the step is a function of the emulator state, which covers them unless the Go runtime itself differs); map iteration order, goroutines and select with several ready cases are not modelled: code that reaches them makes this check inconclusive, not passing'}
+                 'rendering': 'two PPUs with the same scene (three objects on the line, everything but their Y symbolic) render the same pixel; range over a map is modelled as insertion order rotated by a fresh offset per range statement',
+                 'outside': 'separate OS processes (the claim is that the step is a function of the emulator state, which covers them unless the Go runtime itself differs); goroutines and select with several ready cases are not modelled: code that reaches them makes this check inconclusive, not passing'}
     ck.assumptions = ['component invariants as in C06']
     carts = ['none'] if q else list(c06.CARTS)
     jobs = []
@@ -31,6 +32,11 @@ def main(tier):
     jobs += [('memory', 'VerifTwinFresh', {'type': t, 'rom': 1 if t else 0, 'ram': r}) for t, r in fresh_types]
     ck.stubs_used.append('PPU.renderPixel -> no-op in the system-level twin (its own twin is the frame-level run)')
     ck.run(jobs, timeout_ms=600000, max_unwind=64, setup=common_jobs.stub_render)
+    import glob as _g
+    keep = ('common.go', 'c24.go', 'export.go')   # only what the rendering twin needs, so that it survives changes to other internals
+    excl = tuple('ppu/' + os.path.basename(f) for f in _g.glob(os.path.join(VERIF, 'harness', 'ppu', '*.go')) if os.path.basename(f) not in keep)
+    ck.use_build(['ppu'], bodies='image,image/color,math/bits', exclude=excl)
+    ck.run([('ppu', 'VerifTwinRender', {})], timeout_ms=600000, max_unwind=64)
     ck.use_build(['cpu'], extra_overlay=FLAT)
     ops = c25.QUICK_OPS if q else BASE_OPS
     cj = [('cpu', 'VerifTwinInstr', {'op': o, 'cb': 0}) for o in ops] + [('cpu', 'VerifTwinInstr', {'op': o, 'cb': 1}) for o in ([0x06, 0x46, 0x86, 0xc6] if q else range(256))]
